@@ -1,11 +1,12 @@
-SPECIFICATION TSpec
+SPECIFICATION Spec
 CONSTANTS
   Types = {"get", "set", "result", "error", "absent", "garbage"}
   Payloads = {"none", "text", "unknown", "unknownQuery", "version", "discoInfo", "discoInfoNode", "discoItems", "time", "ping", "vcard", "roster", "rosterEmpty", "archiveChat", "archiveList", "archivePref", "archiveRetrieve", "block", "unblock", "blocklist", "private", "mamFin", "mamQuery", "mucAdmin", "mucOwner", "register", "rpc", "rpcBad", "ibbOpen", "ibbData", "ibbClose", "bytestreams", "si", "siBadProfile", "uploadRequest", "uploadSlot", "jingle", "pubsub", "pubsubOwner", "bind", "session", "carbonsEnable", "extdisco", "pushEnable", "mixJoin", "bob", "errorOnly", "version+unknown", "unknown+version", "unknown+vcard", "unknown+si"}
   Froms = {"Empty", "OwnBare", "OwnFullSelf", "OwnFullOther", "Domain", "Contact", "ContactBare"}
   ExtSets = {"none", "default", "all", "allrev"}
-  IdKinds = {"fresh", "dup", "empty", "pending"}
+  IdKinds = {"fresh", "dup", "pending"}
   Peers = {"OwnBare", "OwnFullSelf", "OwnFullOther", "Domain", "Contact", "ContactBare"}
   MaxHist = 99
-INVARIANT Done
+VIEW PendView
+ACTION_CONSTRAINT EmitPendingBehaviour
 CHECK_DEADLOCK FALSE
